@@ -123,3 +123,48 @@ Fixpoint diagnose (c : ncfg) (n : node) (i : N) (evs : list tstep) : option (N *
       if negb (n_oof n') && Msg.list_eqb out_eqb (rev (n_out n')) outs && sobs_eqb (node_obs n') so then diagnose c n' (i + 1) r
       else Some (i, map (fun o => match o with OSend t m => OSend t (canon_msg m) | _ => o end) (rev (n_out n')), node_obs n', n_oof n')
   end.
+
+(* ---- wire (Wire.v, WireLH.v) ---- *)
+From LH Require Import Wire WireLH.
+Definition bytes_eqb (a b : bytes) : bool := Msg.list_eqb N.eqb a b.
+Definition wsig_eqb (a b : wsig) : bool := bytes_eqb (ws_id a) (ws_id b) && bytes_eqb (ws_sig a) (ws_sig b).
+Definition wref_eqb (a b : wref) : bool :=
+  N.eqb (wr_inst a) (wr_inst b) && N.eqb (wr_type a) (wr_type b) && N.eqb (wr_height a) (wr_height b)
+  && N.eqb (wr_view a) (wr_view b) && bytes_eqb (wr_hash a) (wr_hash b).
+Definition wproof_eqb (a b : wproof) : bool :=
+  wref_eqb (wp_ppref a) (wp_ppref b) && wsig_eqb (wp_ppsnd a) (wp_ppsnd b) && wref_eqb (wp_pref a) (wp_pref b)
+  && Msg.list_eqb wsig_eqb (wp_psnds a) (wp_psnds b).
+Definition wvote_eqb (a b : wvote) : bool :=
+  N.eqb (wv_inst a) (wv_inst b) && N.eqb (wv_type a) (wv_type b) && N.eqb (wv_height a) (wv_height b)
+  && N.eqb (wv_view a) (wv_view b) && opt_eqb wproof_eqb (wv_proof a) (wv_proof b) && wsig_eqb (wv_snd a) (wv_snd b).
+Definition wmsg_eqb (a b : wmsg) : bool :=
+  match a, b with
+  | WPP r s, WPP r' s' => wref_eqb r r' && wsig_eqb s s'
+  | WP r s, WP r' s' => wref_eqb r r' && wsig_eqb s s'
+  | WC r s h, WC r' s' h' => wref_eqb r r' && wsig_eqb s s' && bytes_eqb h h'
+  | WVC v, WVC v' => wvote_eqb v v'
+  | WNV i t h v vs s pp pps, WNV i' t' h' v' vs' s' pp' pps' =>
+      N.eqb i i' && N.eqb t t' && N.eqb h h' && N.eqb v v' && Msg.list_eqb wvote_eqb vs vs' && wsig_eqb s s'
+      && wref_eqb pp pp' && wsig_eqb pps pps'
+  | _, _ => false
+  end.
+Definition WS i s := {| ws_id := i; ws_sig := s |}.
+Definition WR i t h v x := {| wr_inst := i; wr_type := t; wr_height := h; wr_view := v; wr_hash := x |}.
+Definition WPF a b c d := {| wp_ppref := a; wp_ppsnd := b; wp_pref := c; wp_psnds := d |}.
+Definition WV i t h v p s := {| wv_inst := i; wv_type := t; wv_height := h; wv_view := v; wv_proof := p; wv_snd := s |}.
+Definition WBP r n s := {| bp_ref := r; bp_nodes := n; bp_seed := s |}.
+
+(* built message: the factory's bytes must equal the model's encoding byte for byte, and the model's reader must
+   return what the Go readers returned on those bytes *)
+Definition wcase := (wmsg * bytes * option wmsg)%type.
+Definition w_ok (c : wcase) : bool :=
+  let '(m, bs, godec) := c in bytes_eqb (enc_msg m) bs && opt_eqb wmsg_eqb (dec_msg bs) godec.
+(* arbitrary bytes (mutated / truncated): only the readers are compared *)
+Definition wdcase := (bytes * option wmsg)%type.
+Definition wd_ok (c : wdcase) : bool := opt_eqb wmsg_eqb (dec_msg (fst c)) (snd c).
+(* block proofs *)
+Definition wbcase := (wblockproof * bytes * wblockproof)%type.
+Definition wb_ok (c : wbcase) : bool :=
+  let '(p, bs, godec) := c in
+  bytes_eqb (enc_blockproof p) bs &&
+  let d := dec_blockproof bs in wref_eqb (bp_ref d) (bp_ref godec) && Msg.list_eqb wsig_eqb (bp_nodes d) (bp_nodes godec) && bytes_eqb (bp_seed d) (bp_seed godec).
